@@ -739,6 +739,7 @@ func runC08(p *an.Prog, r *an.Run, tier string) {
 	}
 	r.Check(len(bad) == 0, "ack", name, rh.Pos(), "accepted <=> vipnode_whitelist(requester) returned nil on that host's connection within the timeout; error only when nothing accepted", "%s", strings.Join(dedup(bad), "; "))
 	checkErrorReplies(p, r)
+	checkErrorResultReported(p, r)
 	// the "not already its peer" filter reads the tracked peer set, which must survive re-registration (shared with C12)
 	checkSetNodeKeepsPeers(p, r)
 	// "is currently connected": the registry discipline of C09 (a close only unregisters its own connection, the maps
@@ -1120,6 +1121,48 @@ func checkActiveHosts(p *an.Prog, r *an.Run, d *types.Named, m *ssa.Function, ex
 	}
 	if !kindBypassOK && knd.found {
 		bad = append(bad, "the kind filter can be bypassed for a non-empty query")
+	}
+	// ... and an empty query means "any kind": from the branch on which the queried kind is empty the result append is
+	// reachable without the record's kind having to equal it (an `||` for the `&&` of the skip condition returns only
+	// records of empty kind, i.e. nothing, for the unrestricted query the status page and legacy clients make)
+	{
+		h := app.Parent()
+		var emptyEdges []*ssa.BasicBlock
+		cutDiff := map[an.Edge]bool{}
+		kindIfs := map[*ssa.If]bool{}
+		an.AllInstrs(h, func(x ssa.Instruction) {
+			iff, isIf := x.(*ssa.If)
+			if !isIf {
+				return
+			}
+			rel, ok := an.NormCond(iff.Cond)
+			if !ok || rel.Kind != "string" {
+				return
+			}
+			b := iff.Block()
+			for _, pair := range [][2]ssa.Value{{rel.L, rel.R}, {rel.R, rel.L}} {
+				if sv, isS := an.ConstString(pair[1]); isS && sv == "" && isPlainParam(p, pair[0], kindPrm) {
+					if rel.Op == token.EQL {
+						emptyEdges = append(emptyEdges, b.Succs[0])
+					} else if rel.Op == token.NEQ {
+						emptyEdges = append(emptyEdges, b.Succs[1])
+					}
+				}
+			}
+			if c2, _, ok2 := classify(h, iff.Cond); ok2 && c2 == "kind" {
+				kindIfs[iff] = true
+			}
+		})
+		_ = cutDiff
+		for _, start := range emptyEdges {
+			isKindIf := func(x ssa.Instruction) bool {
+				iff, ok := x.(*ssa.If)
+				return ok && kindIfs[iff]
+			}
+			if pathFromBlock(h, start, isKindIf, isApp) == nil {
+				bad = append(bad, "with an empty kind query the result append is only reachable through the comparison of the record's kind with the (empty) query: the unrestricted query returns no hosts of any real kind")
+			}
+		}
 	}
 	if !seen.found {
 		bad = append(bad, "no recency filter fences the result: hosts that stopped checking in would be returned; "+seen.why)
